@@ -119,3 +119,26 @@ func LevelOf(levels map[string]string, pkg string) string {
 	}
 	return "major"
 }
+
+// reqShape classifies a requirement string the tool wrote: "pin" (a single version), "caret" ("^v"),
+// "tilde" ("~v"), else "other"; with the version tuple it is anchored at.
+func reqShape(req string) (kind string, at []int) {
+	switch {
+	case strings.HasPrefix(req, "^"):
+		return "caret", verTupleOf(req[1:])
+	case strings.HasPrefix(req, "~"):
+		return "tilde", verTupleOf(req[1:])
+	}
+	if _, ok := ParseVer(req); ok {
+		return "pin", verTupleOf(req)
+	}
+	return "other", []int{}
+}
+
+func verTupleOf(s string) []int {
+	v, ok := ParseVer(s)
+	if !ok {
+		return []int{}
+	}
+	return v[:]
+}
